@@ -36,6 +36,9 @@ Check(line, ev) ==
     [] ev.e = "cfinal" -> Bump(2) /\ (IF ev.obs = ev.want THEN TRUE ELSE Mis(line, "C12.final", <<ev.key, ev.obs, ev.want>>))
     [] ev.e = "crace"  -> Mis(line, "C12.race", ev.frames)
     [] ev.e = "cstuck" -> Mis(line, "C12.deadlock", <<ev.round>>)
+    \* the driver process was ended by the library (os.Exit in Add: a root path the histories say is
+    \* absent was still registered - the registration state diverged from every history)
+    [] ev.e = "cexit"  -> Mis(line, "C12.final", <<"process exited", ev.code>>)
     [] ev.e = "cpanic" -> Mis(line, "C12.panic", <<ev.pv>>)
     [] ev.e = "chist"  -> Bump(5)
     [] OTHER -> TRUE
